@@ -21,7 +21,7 @@ Lemma gen_edfa_nf : forall (a : @amp N) chs,
   edfa_nf a chs =
   map (fun r => g_nf_channel r (g_calc_nf_avg (a_kind a) (edfa_eff a chs) (edfa_pin_db chs) (nlen (map k_pch chs)) (edfa_slot_width chs)))
       (grid_interp a (a_nf_ripple a) chs).
-Proof. intros. unfold edfa_nf. rewrite gen_calc_nf_avg. reflexivity. Qed.
+Proof. reflexivity. Qed.
 
 (* Edfa.interpol_params *)
 Lemma gen_pin_db : forall chs : list (@ch N), edfa_pin_db chs = g_pin_db (nsum (map k_pch chs)).
@@ -31,6 +31,11 @@ Proof. reflexivity. Qed.
 Lemma gen_edfa_eff : forall (a : @amp N) chs,
   edfa_eff a chs = g_eff_gain (a_gain_target a) (a_p_max a) (g_pin_db (nsum (map k_pch chs))).
 Proof. reflexivity. Qed.
+
+Lemma gen_clamp : forall (a : @amp N) chs,
+  edfa_eff a chs = g_eff_gain (a_gain_target a) (a_p_max a) (g_pin_db (nsum (map k_pch chs))) /\
+  edfa_pin_db chs = g_pin_db (nsum (map k_pch chs)).
+Proof. intros. split; reflexivity. Qed.
 
 (* Edfa.noise_profile, Edfa.propagate *)
 Lemma gen_ase_in : forall (c : @ch N) nf, g_ase_in c nf = ase_in c nf.
@@ -58,6 +63,13 @@ Proof.
   intros g1st dgt eff x. rewrite gen_normalise. unfold tilt_by. generalize (g_voa g1st eff). intros v.
   revert dgt. induction g1st as [|g t IH]; intros [|d dt]; cbn [map map2]; try reflexivity. rewrite IH. reflexivity.
 Qed.
+
+Lemma gen_profile_pieces : forall (a : @amp N) freqs dgt ripple (g1st : list (NT N)) eff x,
+  g1st_of a freqs dgt ripple =
+    map2 (g_g1st_elem (a_gain_flatmax a) (g_dgts1 (g_targ_slope (a_tilt_target a) (a_f_min a) (a_f_max a)) (ols_slope freqs dgt))) ripple dgt /\
+  normalise g1st eff = map (fun g => nsub g (g_voa g1st eff)) g1st /\
+  tilt_by (normalise g1st eff) dgt x = map2 (g_tilted_elem (g_voa g1st eff) x) g1st dgt.
+Proof. intros. split; [apply gen_g1st|]. split; [apply gen_normalise | apply gen_tilted]. Qed.
 
 Lemma gen_gavg : forall (pin g : list (NT N)) pin_db, gavg_of pin g pin_db = g_gavg (g_pout_db pin g) pin_db.
 Proof. reflexivity. Qed.
